@@ -353,6 +353,7 @@ package tree
 //@   call (*tree.Tree).ConnectNodes [the_copy_hangs_under_the_copy_of_its_parent_in_the_new_tree] a0 == copytree && a1 == copynode && a2 == copychild && fresh(copychild)
 //@   call (*tree.Tree).CopyEdge [the_new_branch_receives_the_attributes_of_the_original] a1 == edge && a2 == copyedge && fresh(copyedge)
 //@   call (*tree.Tree).copyTreeRecur [descends_through_every_other_branch_of_the_child_under_its_copy] a1 == copytree && a2 == copychild && a3 == child && a4 == e && e != edge
+//@   return [the_branches_below_the_child_are_always_walked_whatever_its_degree] ghost(entered_L1) == old(ghost(entered_L1)) + 1
 //@   loop 1
 //@     complete [all_iterations_no_early_exit]
 
@@ -384,6 +385,7 @@ package tree
 //@   requires t != nil && t2 != nil
 //@   call (*tree.Tree).ConnectNodes [both_old_roots_hang_under_the_new_root] a1 == newroot && fresh(newroot) && ((ghost(ncalls_ConnectNodes) == old(ghost(ncalls_ConnectNodes)) && a2 == old(t.root)) || (ghost(ncalls_ConnectNodes) == old(ghost(ncalls_ConnectNodes)) + 1 && a2 == t2.root))
 //@   call (*tree.Tree).NewNode [only_after_the_name_sets_were_found_disjoint] len(t.tipIndex) != 0 && len(t2.tipIndex) != 0 && (forall s string :: {has(t.tipIndex, s)} has(t.tipIndex, s) ==> !has(t2.tipIndex, s))
+//@   ensures [no_branch_that_existed_before_is_given_another_length_or_support] ghost(ncalls_SetLength) == old(ghost(ncalls_SetLength)) && ghost(ncalls_SetSupport) == old(ghost(ncalls_SetSupport)) && (forall e *Edge :: {e.length} {e.support} allocated(e) && !fresh(e) ==> e.length == old(e.length) && e.support == old(e.support))
 //@   ensures [success_means_new_root_and_rebuilt_indexes] result == nil ==> fresh(t.root) && ghost(ncalls_ReinitIndexes) == old(ghost(ncalls_ReinitIndexes)) + 1 && ghost(ncalls_ConnectNodes) == old(ghost(ncalls_ConnectNodes)) + 2
 //@   loop 1
 //@     complete [all_iterations_no_early_exit]
